@@ -143,7 +143,7 @@ class PeptidePoolSplitter():
             if all(x in sources for x in wildcard_chrs):
                 raise ValueError(f"Invalid wildcard in souce order: {sources}")
             start = 0 if '*' in sources else 1
-            for i in range(start, len(individual_sources)):
+            for i in range(start, len(individual_sources) + 1):
                 for extra_sources in itertools.combinations(individual_sources, i):
                     expanded_sources = [x for x in sources if x not in wildcard_chrs] \
                         + list(extra_sources)
